@@ -12,6 +12,7 @@ package main
 import (
 	"fmt"
 	"os"
+	"runtime/debug"
 	"runtime/pprof"
 	"strings"
 
@@ -224,6 +225,7 @@ func main() {
 			pprof.StartCPUProfile(f)
 			defer pprof.StopCPUProfile()
 		}
+		debug.SetGCPercent(400) // executions churn through MB-sized buffers; collect less often
 		calibrate()
 		selfCheck()
 		x := &explorer{r: r, viol: map[string]*found{}}
